@@ -616,7 +616,6 @@ pub fn generate(tier: &str, seed: u64) -> Vec<Rec> {
             j += 1;
             let edge = start == 0 || start + count == bits || count <= 2 || start % 8 == 0 && count % 8 == 0;
             if !thorough && !(edge && (bits < 32 || (start + count) % 3 != 1 || count <= 1) || j % 11 == 0) { continue; }
-            if thorough && bits == 32 && !edge && j % 2 == 0 { continue; }
             let w = if j % 3 == 0 { (1i128 << bits) - 1 } else { word(&mut rng, bits) };
             out.push(Rec::new(15013, vec![if j % 7 == 0 { 1 } else { 2 }, 8, bits, start, count, tcs[j % tcs.len()], sd()], vec![vec![w]]));
         } }
@@ -642,12 +641,12 @@ pub fn generate(tier: &str, seed: u64) -> Vec<Rec> {
             }
         }
         for k in 0..32 { if thorough || k % 4 == (op as usize) % 4 { pairs.push((1 << k, rng.next() as u32)); pairs.push((rng.next() as u32, 1 << k)); } }
-        for _ in 0..(if thorough { 150 } else { 40 }) { pairs.push((rng.next() as u32, rng.next() as u32)); }
+        for _ in 0..(if thorough { 400 } else { 40 }) { pairs.push((rng.next() as u32, rng.next() as u32)); }
         for (a, b) in pairs { out.push(Rec::new(15020 + op, vec![be(&mut rng), 8, sd()], vec![vec![a as i128, b as i128]])); }
     }
 
     // short random programs: 2-3 operations chained through re-preparation
-    for _ in 0..(if thorough { 400 } else { 100 }) {
+    for _ in 0..(if thorough { 1000 } else { 100 }) {
         let n_in = 2 + rng.below(2) as usize;
         let inputs: Vec<i128> = (0..n_in).map(|_| word(&mut rng, 32)).collect();
         let steps = 2 + rng.below(2) as usize;
@@ -703,7 +702,7 @@ pub fn generate(tier: &str, seed: u64) -> Vec<Rec> {
     }
 
     // circuit bootstrapping: both bit values, both routes, constant and exponent mode, every GGSW cell
-    for rep in 0..(if thorough { 8 } else { 3 }) {
+    for rep in 0..(if thorough { 16 } else { 3 }) {
         for route in [0i128, 1] { for msg in [0i128, 1] {
             out.push(Rec::new(15060, vec![if rep == 0 { 1 } else { 2 }, 8, route, msg, 1, 13, 2, 2, sd()], vec![]));
             for lgo in [0i128, 1, 3, 7] {
